@@ -42,117 +42,45 @@ def _wrap32(v):
     return v - (1 << 32) if v >= (1 << 31) else v
 
 
-def py_to_number(kind, b, x):
-    return [float('nan'), 0.0, 1.0 if b else 0.0, x][kind]
+DOMAIN = 'every f64 bit pattern x {undefined,null,boolean,number}'
 
 
-NAN_BITS = z3.BitVecVal(0x7ff8000000000000, 64)
-ONE_BITS = z3.BitVecVal(0x3ff0000000000000, 64)
-ZERO_BITS = z3.BitVecVal(0, 64)
-
-
-def sym_to_number(d, b, xbits):
-    """ToNumber of a primitive operand, as an IEEE bit pattern"""
-    return z3.If(d == 0, NAN_BITS, z3.If(d == 1, ZERO_BITS, z3.If(d == 2, z3.If(b, ONE_BITS, ZERO_BITS), xbits)))
-
-
-def model_operand(m, o):
-    _, d, b, xbits = o
-    kind = m.eval(d, model_completion=True).as_long()
-    bv = z3.is_true(m.eval(b, model_completion=True))
-    bits = m.eval(xbits, model_completion=True).as_long()
-    return kind, bv, bits
-
-
-def check_arms(rep, ex, cross):
+def check_arms(rep, ex, cross, pid='C15'):
     h = vmarms.ArmHarness(ex, rep)
     nvec = vmarms.oracle_selftest()
     rep.extra['oracle_selftest_vectors'] = nvec
-    # encoder validation: concrete operands through executor-shaped oracle vs the real interpreter
-    progs = []
+    # the real interpreter against the arithmetic definition on fixed vectors (also validates the replay route)
     vals = [0.0, -1.5, 2147483648.0, 4294967296.0, -2147483649.0, 1e21, 3.0, 31.0, 33.0, float('nan'), 6442450944.0, 2.0 ** 53 + 2]
     cases = []
     for name, (nops, oracle, jsop, pyo) in ARMS.items():
         for i, a in enumerate(vals):
-            if nops == 1:
-                cases.append((name, (a,)))
-            else:
-                cases.append((name, (a, vals[(i * 5 + 3) % len(vals)])))
+            cases.append((name, (a,) if nops == 1 else (a, vals[(i * 5 + 3) % len(vals)])))
     reqs = []
     for name, args in cases:
         nops, oracle, jsop, pyo = ARMS[name]
         lits = [vmarms.js_literal(3, False, vmarms.f64_bits(a)) for a in args]
-        src = ('%s %s' % (jsop, lits[0])) if nops == 1 else ('%s %s %s' % (lits[0], jsop, lits[1]))
-        reqs.append({'cmd': 'eval', 'src': src})
+        reqs.append({'cmd': 'eval', 'src': ('%s %s' % (jsop, lits[0])) if nops == 1 else ('%s %s %s' % (lits[0], jsop, lits[1]))})
     outs = driver.replay(reqs)
-    rep.extra['real_vs_ecmascript_on_fixed_vectors'] = []
+    diffs = []
     for (name, args), o, rq in zip(cases, outs, reqs):
         want = float(ARMS[name][3](*args))
-        got = vmarms.bits_f64(int(o['value']['bits'], 16)) if o.get('ok') and o['value']['t'] == 'number' else None
+        got = vmarms.reply_value(o)
         rep.validated += 1
-        if got != want:
-            rep.extra['real_vs_ecmascript_on_fixed_vectors'].append('%s -> %r, ECMAScript %r' % (rq['src'], got, want))
+        if not vmarms.same_js(got, want):
+            diffs.append('%s -> %r, ECMAScript %r' % (rq['src'], got, want))
+    rep.extra['real_vs_ecmascript_on_fixed_vectors'] = diffs
     for name, (nops, oracle, jsop, pyo) in ARMS.items():
-        ends, ops, a_vm = h.run_arm(name, nops)
-        key = 'C15/execute_op/%s/wrong-result' % name
-        reported = False
+        def orc(ops, oracle=oracle):
+            nums = [vmarms.sym_to_number_bits(o[1], o[2], o[3]) for o in ops]
+            bvv, signed = oracle(*nums)
+            return ('int', bvv, signed)
 
-        def concrete_cex(m, what):
-            """replay a solver model on the real build (dev + release); report only what reproduces"""
-            mo = [model_operand(m, o) for o in ops]
-            lits = [vmarms.js_literal(*x) for x in mo]
-            src = ('%s %s' % (jsop, lits[0])) if nops == 1 else ('%s %s %s' % (lits[0], jsop, lits[1]))
-            pyargs = [py_to_number(kd, bb, vmarms.bits_f64(xb)) for kd, bb, xb in mo]
-            want = float(pyo(*pyargs))
-            outs = [driver.replay([{'cmd': 'eval', 'src': src}], prof)[0] for prof in ('dev', 'release')]
-            rep.validated += 2
-            gots = [vmarms.bits_f64(int(o['value']['bits'], 16)) if o.get('ok') and o['value']['t'] == 'number' else
-                    ('panic: ' + o['panic'] if 'panic' in o else repr(o)) for o in outs]
-            if gots[0] == want and gots[1] == want:
-                rep.inconc('%s: counterexample %s does not reproduce on the real build (got %r)' % (what, src, gots))
-                return
-            p = rep.write_replay('arm-%s' % name, {'cmd': 'eval', 'src': src, 'expected': want, 'observed_dev': gots[0], 'observed_release': gots[1]})
-            rep.violation(key, '%s evaluates to %r (dev) / %r (release), ECMAScript says %r' % (src, gots[0], gots[1], want), p)
+        def src(lits, jsop=jsop, nops=nops):
+            return ('%s %s' % (jsop, lits[0])) if nops == 1 else ('%s %s %s' % (lits[0], jsop, lits[1]))
 
-        panics = [e for e in ends if e.status == 'panic']
-        for e in panics[:1]:
-            # a feasible arithmetic panic in an opcode arm: debug builds abort the run, release builds wrap
-            r, m = ex.check_sat_pc(e.st.pc, [])
-            rep.obligation('arm %s: no arithmetic panic (%s)' % (name, e.detail[:80]), 'sat', 'all operands', 0.0)
-            concrete_cex(m, 'arm %s panic path' % name)
-            reported = True
-        ends = [e for e in ends if e.status != 'panic']
-        if not common.require_clean(rep, ends, 'arm ' + name):
-            continue
-        rep.vacuity.append('arm %s: %d feasible paths reach the assertion' % (name, len(ends)))
-        for k, e in enumerate(ends):
-            res = h.result_reg(e, a_vm)
-            nums = [sym_to_number(o[1], o[2], o[3]) for o in ops]
-            expected = oracle(*nums)
-            okret = isinstance(e.value, EnumV) and e.value.discr == 0
-            if not (okret and isinstance(res.discr, int) and res.discr == 3):
-                rep.inconc('arm %s path %d: unexpected result shape %r / %r' % (name, k, e.value, res))
-                continue
-            gotv = res.payload[3][0]
-            ebv, esigned = expected
-            if gotv.src is not None and gotv.src[1] == esigned and gotv.src[0].size() == 32:
-                # i32/u32 -> f64 is exact and injective: compare the integers (pure bit-vector query)
-                neq = gotv.src[0] != ebv
-            else:
-                neq = z3.Not(gotv.e == (i32_to_f64(ebv) if esigned else u32_to_f64(ebv)))
-            t = time.time()
-            r, m = ex.check_sat_pc(e.st.pc, [neq])
-            dt = time.time() - t
-            what = 'arm %s path %d: result == ECMAScript (%s on ToInt32/ToUint32)' % (name, k, jsop)
-            rep.obligation(what, r, 'all f64 bit patterns x {undefined,null,boolean,number}', dt)
-            if r == 'unsat':
-                cross.append((what, list(e.st.pc) + [neq], 'unsat'))
-                continue
-            if reported:
-                continue
-            reported = True
-            concrete_cex(m, what)
-        rep.sample({'kernel': 'execute_op arm ' + name, 'paths': len(ends), 'operands': 'kind in {undefined,null,boolean,number}, any f64'})
+        def pyor(vals_, pyo=pyo):
+            return float(pyo(*[vmarms.py_to_number(*v) for v in vals_]))
+        vmarms.check_arm(rep, ex, h, pid, name, nops, orc, src, pyor, cross, DOMAIN)
 
 
 def check_numeric_keys(rep, ex, cross):
